@@ -441,6 +441,19 @@ func rulesC09(c *Ctx) {
 				}
 			}
 			c.Check(fresh, "connectSSE:a-timer-per-attempt", cs, fs, "the back-off wait is armed anew in every iteration (time.After / NewTimer / Reset inside the loop)")
+			// a connection attempt that failed is followed by the next attempt — whatever the transport error was; the
+			// budget (and nothing else) decides when to give up
+			cg := cs.Graph()
+			do := c.Std("net/http", "Client", "Do")
+			nDo := 0
+			for _, call := range cs.CallsIn(fs.Body, do, false) {
+				for _, t := range cs.failureEdges(call) {
+					nDo++
+					okNext, p := cg.MustPassIncl(t, cg.Exits, func(v int) bool { return v == cg.VertexOf(fs.Post) })
+					c.Check(okNext, "connectSSE:failed-attempt-is-retried", cs, call, "behind a failed client.Do every path reaches the loop's next attempt (no early return by kind of error) %s", cg.PathString(p))
+				}
+			}
+			c.Pin("connectSSE: failure edges of client.Do", nDo, 1)
 			c.Check(extra == 0 && ctr != nil, "connectSSE:one-attempt-per-failure", cs, fs, "the attempt counter is not modified inside the loop body (%d extra writes): with the default budget of 5 a client must survive 5 failed reconnects, not 3", extra)
 		})
 		c.Check(okLoop, "connectSSE:bounded-abortable", cs, nil, "reconnect attempts are bounded by maxRetries and each wait can be aborted by Close or by the caller's context")
